@@ -277,6 +277,7 @@ func pickOutcome(name string, allowAgain bool) int {
 }
 
 func Read(fd int, p []byte) (int, syscall.Errno) {
+	vf.SyncPoint() // system calls on shared kernel objects are preemption points
 	if !valid(fd) {
 		return -1, syscall.EBADF
 	}
@@ -351,6 +352,7 @@ func Read(fd int, p []byte) (int, syscall.Errno) {
 }
 
 func Write(fd int, p []byte) (int, syscall.Errno) {
+	vf.SyncPoint()
 	if !valid(fd) {
 		return -1, syscall.EBADF
 	}
@@ -548,6 +550,7 @@ func EpollWait(epfd int, out []Ready, timeoutMs int) (int, syscall.Errno) {
 	if !valid(epfd) || K.FDs[epfd].Kind != KEpoll {
 		return -1, syscall.EBADF
 	}
+	vf.SyncPoint()
 	K.Log.EpollWaits++
 	vf.Assume(K.Cfg.MaxWaits == 0 || K.Log.EpollWaits <= K.Cfg.MaxWaits)
 	if K.Cfg.AllowEINTR && vf.Bool("epoll_wait.eintr") {
